@@ -220,7 +220,7 @@ def case_restart(spec):
             return pcs, code
 
         before_tbl = bp_table()
-        j = {'before-start': 0, 'first-stop': 1, 'middle': rng.randint(2, 2 * K - 1), 'exited': 10 ** 6}[when]
+        j = {'before-start': 0, 'not-started': 0, 'first-stop': 1, 'middle': rng.randint(2, 2 * K - 1), 'exited': 10 ** 6}[when]
         pcs, code = ([], None) if j == 0 else run(j)
         if j and pcs != expected[:min(j, 2 * K)]:
             v.violation('c11:first-run-stop-sequence', 'stop sequence of the first run differs from the expected one',
@@ -231,9 +231,11 @@ def case_restart(spec):
                 v.violation('c11:exit-code-differs', 'exit code reported by the debugger differs from the native exit status',
                             dict(ctx, reported=code, native=native[2], generator=P.side['exit_code']))
         old_pid = S.pid
+        pids_seen = {S.pid}
         if when == 'before-start':
-            r = S.cmd('start', timeout=TMO)   # restart is defined for a started program: start, then restart at the first stop
+            r = S.cmd('start', timeout=TMO)   # start, then restart at the first stop
             pcs = [(r.get('ok') or {}).get('pc')]
+        # when == 'not-started': restart of a program that was never started (the forked child waits before exec)
         r = S.cmd('restart', timeout=TMO)
         if 'ok' not in r:
             v.violation(f'c11:restart-failed:{when}', 'restart returned an error', dict(ctx, err=r.get('err')))
@@ -264,6 +266,15 @@ def case_restart(spec):
             v.violation('c11:exit-code-differs', 'exit code reported by the debugger differs from the native exit status',
                         dict(ctx, reported=code2, native=native[2], generator=P.side['exit_code'], after_restart=True))
         out, err = S.output(wait=0.5)
+        # every process the debugger ever created for this program must be gone once the debugger is dropped
+        pids_seen.add(new_pid)
+        S.w.cmd('drop', timeout=TMO)
+        for p_ in sorted(pids_seen):
+            left = wait_gone(p_)
+            v.count('restart_pids_checked_after_drop')
+            if left is not None:
+                v.violation(f'c11:process-left-behind:after-restart:{when}', 'a process created by the debugger (an earlier incarnation before a restart) is still there after the debugger was dropped',
+                            dict(ctx, pid=p_, state_in_proc=left, pids=sorted(pids_seen)))
         v.case(signature=('restart', when, exit_kind), sample=dict(ctx, stops_after=len(seq), code=code2))
     except Crash as c:
         loc = (c.info or {}).get('panic', {}).get('loc') if c.kind == 'panic' else (c.info or {}).get('cmd')
@@ -481,7 +492,7 @@ def main(tier):
                         continue
                     specs.append(('teardown', rep * 10 + (i % 3), state, kind, shape, tier))
                     i += 1
-        for when in ('before-start', 'first-stop', 'middle', 'exited'):
+        for when in ('not-started', 'before-start', 'first-stop', 'middle', 'exited'):
             for ek in ((0, 1, 2, 'panic', 255) if tier == 'thorough' or when == 'exited' else (rep % 3,)):
                 specs.append(('restart', 50 + rep, when, ek, tier))
         for state in ('just-attached', 'breakpoint', 'after-step', 'watchpoint'):
